@@ -245,6 +245,12 @@ def parameters_kept(ctx, modules, classes=None, methods=None):
                         and (isinstance(a.test.comparators[0], ast.Constant) and a.test.comparators[0].value is None
                              or is_name(a.test.comparators[0], '_MISSING')) and st in a.body:
                     guarded = True
+            # ... or by its truth value, for the parameters where that was confirmed harmless
+            if not guarded and (u.qualname, prm) in TRUTH_TESTED_DEFAULTS:
+                for a in ancestors(st):
+                    if isinstance(a, ast.If) and isinstance(a.test, ast.UnaryOp) and isinstance(a.test.op, ast.Not) \
+                            and is_name(a.test.operand, prm) and st in a.body:
+                        guarded = True
             ok = guarded
             why = 'replaces a missing argument'
             if not ok and conv is not None:
